@@ -111,7 +111,11 @@ impl Spec {
     }
 
     fn count(n: u8) -> Phase {
-        if n + 1 >= 8 { Phase::Plain4 } else { Phase::Up(n + 1) }
+        if n + 1 >= 8 {
+            Phase::Plain4
+        } else {
+            Phase::Up(n + 1)
+        }
     }
 
     /// All (measurement produced?, successor) pairs the statement allows for this answer.
@@ -140,13 +144,21 @@ impl Spec {
                 // missed before the switch count).
                 let phases: Vec<Phase> = match self.phase {
                     Phase::Up(n) if marker => {
-                        vec![Phase::Up(n), Phase::Trial(0), Phase::Trial(1), Phase::Trial(2)]
+                        vec![
+                            Phase::Up(n),
+                            Phase::Trial(0),
+                            Phase::Trial(1),
+                            Phase::Trial(2),
+                        ]
                     }
                     Phase::Up(n) => vec![Phase::Up(n), Spec::count(n)],
                     Phase::Trial(k) => vec![Phase::Trial(k), Phase::Conf5],
                     p => vec![p],
                 };
-                phases.into_iter().map(|phase| (false, Spec { phase, open: true })).collect()
+                phases
+                    .into_iter()
+                    .map(|phase| (false, Spec { phase, open: true }))
+                    .collect()
             }
         };
         if f.version == exp {
@@ -195,11 +207,16 @@ impl SpecSet {
                 .iter()
                 .map(|s| {
                     let (v, m, _) = s.on_poll();
-                    format!("{:?}->v{}{}", s.phase, v, match m {
-                        Some(true) => "+marker",
-                        Some(false) => " plain",
-                        None => "",
-                    })
+                    format!(
+                        "{:?}->v{}{}",
+                        s.phase,
+                        v,
+                        match m {
+                            Some(true) => "+marker",
+                            Some(false) => " plain",
+                            None => "",
+                        }
+                    )
                 })
                 .collect();
             return Err(format!(
@@ -224,7 +241,11 @@ impl SpecSet {
             return Err(format!(
                 "answer {:?} {} but reference states {:?} all require the opposite",
                 f,
-                if accepted { "produced a measurement" } else { "was not used" },
+                if accepted {
+                    "produced a measurement"
+                } else {
+                    "was not used"
+                },
                 self.0
             ));
         }
@@ -258,7 +279,11 @@ impl Ev {
         }
     }
     fn parse(s: &str) -> Option<Ev> {
-        if s == "T" { Some(Ev::Timer) } else { Ans::parse(s).map(Ev::Ans) }
+        if s == "T" {
+            Some(Ev::Timer)
+        } else {
+            Ans::parse(s).map(Ev::Ans)
+        }
     }
 }
 
@@ -291,7 +316,13 @@ fn alphabet(mode: Mode, quick: bool) -> Vec<Ev> {
         let kinds: &[Kind] = if quick && mode == Mode::Auto {
             &[Kind::Usable, Kind::KissX, Kind::ClientMode]
         } else {
-            &[Kind::Usable, Kind::KissX, Kind::KissDeny, Kind::ClientMode, Kind::Stratum17]
+            &[
+                Kind::Usable,
+                Kind::KissX,
+                Kind::KissDeny,
+                Kind::ClientMode,
+                Kind::Stratum17,
+            ]
         };
         for (ver, marker) in versions {
             for k in kinds.iter().copied() {
@@ -313,18 +344,52 @@ fn alphabet(mode: Mode, quick: bool) -> Vec<Ev> {
                 for ver in [4u8, 5] {
                     for k in [Kind::Usable, Kind::KissX, Kind::KissDeny] {
                         let (m, s, kiss) = kind_fields(k);
-                        v.push(Ev::Ans(Ans { id, version: ver, marker: false, mode: m, stratum: s, kiss, auth: true, uid }));
+                        v.push(Ev::Ans(Ans {
+                            id,
+                            version: ver,
+                            marker: false,
+                            mode: m,
+                            stratum: s,
+                            kiss,
+                            auth: true,
+                            uid,
+                        }));
                     }
                 }
             }
         }
         for ver in [4u8, 5] {
             // unauthenticated, everything else right
-            v.push(Ev::Ans(Ans { id: IdSel::Match, version: ver, marker: false, mode: 4, stratum: 1, kiss: Kiss::Unknown, auth: false, uid: UidSel::Match }));
+            v.push(Ev::Ans(Ans {
+                id: IdSel::Match,
+                version: ver,
+                marker: false,
+                mode: 4,
+                stratum: 1,
+                kiss: Kiss::Unknown,
+                auth: false,
+                uid: UidSel::Match,
+            }));
             // authentic answer to the previous request, replayed
-            v.push(Ev::Ans(Ans { id: IdSel::Stale, version: ver, marker: false, mode: 4, stratum: 1, kiss: Kiss::Unknown, auth: true, uid: UidSel::Match }));
+            v.push(Ev::Ans(Ans {
+                id: IdSel::Stale,
+                version: ver,
+                marker: false,
+                mode: 4,
+                stratum: 1,
+                kiss: Kiss::Unknown,
+                auth: true,
+                uid: UidSel::Match,
+            }));
         }
-        v.push(Ev::Ans(Ans::plain(IdSel::Match, 3, false, 4, 1, Kiss::Unknown)));
+        v.push(Ev::Ans(Ans::plain(
+            IdSel::Match,
+            3,
+            false,
+            4,
+            1,
+            Kiss::Unknown,
+        )));
     }
     v
 }
@@ -354,7 +419,12 @@ enum Step {
 
 fn facts_of(mode: Mode, a: &Ans) -> Facts {
     let fresh = a.id == IdSel::Match && (!mode.nts() || (a.uid == UidSel::Match && a.auth));
-    Facts { fresh, version: a.version, marker: a.marker, usable: a.usable_fields() }
+    Facts {
+        fresh,
+        version: a.version,
+        marker: a.marker,
+        usable: a.usable_fields(),
+    }
 }
 
 fn step(mode: Mode, r: &mut Rig, spec: &mut SpecSet, ev: &Ev, st: &mut Local) -> Step {
@@ -365,10 +435,16 @@ fn step(mode: Mode, r: &mut Rig, spec: &mut SpecSet, ev: &Ev, st: &mut Local) ->
                 Some(i) => {
                     let (ver, marker) = (r.requests[i].version, r.requests[i].marker);
                     if !obs.is_poll() {
-                        return Step::Violation("C12:timer-actions", format!("timer sent a request but returned {:?}", obs.acts));
+                        return Step::Violation(
+                            "C12:timer-actions",
+                            format!("timer sent a request but returned {:?}", obs.acts),
+                        );
                     }
                     if r.requests[i].mode_bits != 3 {
-                        return Step::Violation("C12:timer-actions", format!("request has mode bits {}", r.requests[i].mode_bits));
+                        return Step::Violation(
+                            "C12:timer-actions",
+                            format!("request has mode bits {}", r.requests[i].mode_bits),
+                        );
                     }
                     st.inc(match (ver, marker) {
                         (4, false) => "sent_v4_plain",
@@ -388,22 +464,39 @@ fn step(mode: Mode, r: &mut Rig, spec: &mut SpecSet, ev: &Ev, st: &mut Local) ->
                         };
                         return Step::Violation(class, e);
                     }
-                    if before.0.iter().any(|s| matches!(s.phase, Phase::Trial(k) if k >= 2)) && ver == 4 {
+                    if before
+                        .0
+                        .iter()
+                        .any(|s| matches!(s.phase, Phase::Trial(k) if k >= 2))
+                        && ver == 4
+                    {
                         st.inc("fallbacks_to_v4");
                         // observation (allowed by the nondeterministic reference, see
                         // notes/gd.md): fallback although fewer than two NTPv5 polls were sent
                         // since the switch — only reachable through an unusable answer
                         // carrying the marker while polls were already being missed
-                        let v5_polls = r.requests[..i].iter().rev().take_while(|q| q.version == 5).count();
+                        let v5_polls = r.requests[..i]
+                            .iter()
+                            .rev()
+                            .take_while(|q| q.version == 5)
+                            .count();
                         if v5_polls < 2 {
-                            st.inc("fallbacks_to_v4_before_two_v5_polls_after_unusable_marker_answer");
+                            st.inc(
+                                "fallbacks_to_v4_before_two_v5_polls_after_unusable_marker_answer",
+                            );
                         }
                     }
-                    Step::Ok(format!("sent v{ver}{}", if marker { "+marker" } else { "" }))
+                    Step::Ok(format!(
+                        "sent v{ver}{}",
+                        if marker { "+marker" } else { "" }
+                    ))
                 }
                 None => {
                     if !(obs.is_reset() || obs.is_demobilize()) {
-                        return Step::Violation("C12:timer-actions", format!("timer returned {:?}", obs.acts));
+                        return Step::Violation(
+                            "C12:timer-actions",
+                            format!("timer returned {:?}", obs.acts),
+                        );
                     }
                     st.inc("timer_without_request_reset_or_demobilize");
                     Step::Ok(format!("{:?}", obs.acts))
@@ -429,7 +522,10 @@ fn step(mode: Mode, r: &mut Rig, spec: &mut SpecSet, ev: &Ev, st: &mut Local) ->
             }
             let before = spec.clone();
             if let Err(e) = spec.answer(&f, accepted) {
-                let class = if accepted && !before.expects(a.version) && !(a.version == 3 && before.expects(4)) {
+                let class = if accepted
+                    && !before.expects(a.version)
+                    && !(a.version == 3 && before.expects(4))
+                {
                     "C12:accepted-unexpected-version"
                 } else if accepted {
                     "C12:accepted-not-fresh-or-unusable"
@@ -452,7 +548,11 @@ fn step(mode: Mode, r: &mut Rig, spec: &mut SpecSet, ev: &Ev, st: &mut Local) ->
                     });
                 }
             }
-            Step::Ok(format!("{}{:?}", if accepted { "accepted " } else { "not-used " }, obs.acts))
+            Step::Ok(format!(
+                "{}{:?}",
+                if accepted { "accepted " } else { "not-used " },
+                obs.acts
+            ))
         }
     }
 }
@@ -487,7 +587,11 @@ fn key_of(r: &Rig, spec: &SpecSet) -> Key {
     let mut view = r.view();
     view.tries = view.tries.min(3);
     view.pending = view.pending.map(|_| 0);
-    Key { view, spec: spec.clone(), nreq: r.requests.len().min(2) as u8 }
+    Key {
+        view,
+        spec: spec.clone(),
+        nreq: r.requests.len().min(2) as u8,
+    }
 }
 
 fn trace_of(mode: Mode, alpha: &[Ev], hist: &[u16], last: Option<&Ev>) -> String {
@@ -562,7 +666,12 @@ fn explore(ctx: &Ctx, mode: Mode) -> rig::LevelStats {
         },
         |depth, width| {
             if ctx.over_budget() {
-                ctx.cap_hit(&format!("mode {}: budget used up before depth {} (frontier {}); complete below", mode.name(), depth, width));
+                ctx.cap_hit(&format!(
+                    "mode {}: budget used up before depth {} (frontier {}); complete below",
+                    mode.name(),
+                    depth,
+                    width
+                ));
                 return false;
             }
             true
@@ -574,7 +683,14 @@ fn explore(ctx: &Ctx, mode: Mode) -> rig::LevelStats {
     ctx.max("max_depth", stats.max_depth);
     ctx.note(
         &format!("mode_{}", mode.name()),
-        &format!("alphabet {} events, {} states, {} transitions, depth {}, fixpoint {}", alpha.len(), stats.states, stats.transitions, stats.max_depth, stats.fixpoint),
+        &format!(
+            "alphabet {} events, {} states, {} transitions, depth {}, fixpoint {}",
+            alpha.len(),
+            stats.states,
+            stats.transitions,
+            stats.max_depth,
+            stats.fixpoint
+        ),
     );
     stats
 }
